@@ -554,6 +554,19 @@ fn case_body(seed: u64) {
     let _ = f.end(None);
     let _ = f.end(None);
     let _ = f.filter(vec![1, 2, 3], None);
+    // the object is still in the caller's hands after end(): a second, valid stream through the same filter
+    // (an embedder that pools filter objects), then garbage again
+    if rng.coin() {
+        let mut again = FilterBodyAction::new(Vec::new(), &headers);
+        let _ = again.end(None);
+        let second = if matches!(enc, "gzip" | "deflate" | "br") { compress(&body, enc) } else { body.clone() };
+        for target in [&mut f, &mut again] {
+            for chunk in second.chunks(rng.range(1, 4096)) {
+                let _ = target.filter(chunk.to_vec(), None);
+            }
+            let _ = target.end(None);
+        }
+    }
 }
 
 fn case_analysis(seed: u64) {
